@@ -81,7 +81,46 @@ def main(tier):
                     cases.append({"id": sid, "files": ff, "root": "main.jst", "banned": [x for x in banned if x != one], "banned2": [one]})
                     meta[sid] = ("p%d" % n, ban, used, form, text, files, spans, m)
             meta[cid] = ("p%d" % n, ban, used, form, text, files, spans, m)
+    # a banned INCLUDE is refused as such, whatever it names (missing file, directory, forbidden name, nothing):
+    # the ban comes before any look at the file system
+    badinc = {}
+    targets = [("missing", "INCLUDE nosuchfile.jst"), ("directory", "INCLUDE adir"), ("forbidden_name", "INCLUDE ../x.jst"),
+               ("no_name", "INCLUDE"), ("existing", "INCLUDE other.jst")]
+    for n, m in enumerate(docs[:(400 if tier == "thorough" else 60)]):
+        text = apidoc.render(m["doc"])[0]
+        tn, line = targets[n % len(targets)]
+        t2 = text + line + "\n"
+        for j, banned in enumerate((["INCLUDE"], ["INCLUDE", "MACRO"])):
+            cid = "bi%d_%d" % (n, j)
+            c = {"id": cid, "files": {"main.jst": b64(t2), "other.jst": b64("TYPE @zother any\n")}, "dirs": ["adir"], "root": "main.jst",
+                 "banned": banned[:1]}
+            if len(banned) > 1:
+                c["banned2"] = banned[1:]
+            cases.append(c)
+            badinc[cid] = (tn, t2, len(text.encode()))
     obs = harness("run", cases)
+    for cid, (tn, t2, at) in badinc.items():
+        b = obs[cid]
+        chk.evaluations += 1
+        chk.traces += 1
+        chk.nontrivial.add("badinc" + tn + t2)
+        bad = None
+        sig = {"ban": "INCLUDE", "form": "include_" + tn}
+        if b["outcome"] != "error":
+            bad = "INCLUDE is banned and occurs, but the run was: %s" % rel.describe(b)
+            sig["what"] = "not rejected"
+        elif "not allowed" not in b["err"]["msg"]:
+            bad = "INCLUDE is banned, rejected but not with a 'not allowed' diagnostic: %r" % b["err"]["msg"]
+            sig["what"] = "other diagnostic"
+        elif b["err"]["index"] != at:
+            bad = "'not allowed' diagnostic at byte %d, the banned INCLUDE is at byte %d" % (b["err"]["index"], at)
+            sig["what"] = "wrong location"
+        elif any(op == "read" for op, _ in b.get("fileops") or []):
+            bad = "INCLUDE is banned but a file was read: %s" % b["fileops"]
+            sig["what"] = "file read"
+        if bad:
+            chk.violation("%s | banned INCLUDE naming %s | document ends:\n%s" % (bad, tn, t2[-300:]),
+                          {"kind": "ban_include", "target": tn, "main": t2, "observed_banned": b, "signature": sig}, sig)
     hit = 0
     for cid, (pid, ban, used, form, text, files, spans, m) in meta.items():
         a, b = obs[pid], obs[cid]
@@ -135,6 +174,14 @@ def main(tier):
 
 def replay(path):
     rp = json.load(open(path))["replay"]
+    if rp.get("kind") == "ban_include":
+        chk = Check("C18", "quick")
+        chk.evaluations = 1
+        b = harness("run", [{"id": "a", "files": {"main.jst": b64(rp["main"]), "other.jst": b64("TYPE @zother any\n")}, "dirs": ["adir"],
+                             "root": "main.jst", "banned": ["INCLUDE"]}])["a"]
+        if b["outcome"] != "error" or "not allowed" not in b["err"]["msg"]:
+            chk.violation("reproduced: %s" % rel.describe(b), rp, rp.get("signature"))
+        return chk.finish()
     chk = Check("C18", "quick")
     chk.evaluations = 1
     ff = {"main.jst": b64(rp["main"])}
